@@ -15,6 +15,8 @@
  * ops
  *   store <ty> <hints> <hex>          plugin->store(JSON format, hints)      -> ok <canon-hex> <lyb-hex> | err <Kind>
  *   validate <ty> <hex>               lyd_value_validate                     -> ok <canon-hex> | err <Kind>
+ *   validate_n <ty> <hex> <n> <exact> lyd_value_validate(value, value_len = n < strlen); exact = 1: the buffer is a
+ *                                     malloc of exactly n bytes (no terminator)  -> ok <canon-hex> | err <Kind>
  *   cmp <ty> <hex1> <hex2>            lyd_new_term x2                        -> ok <eq> <sort> <canon-eq> <ord12> <ord21> | err Reject1|Reject2
  *   lybrt <ty> <hex>                  value -> LYB -> value, dup, tree LYB   -> ok <lyb-hex> <canon-hex> <eq> <dup> <tree> | err <Kind>
  *   unlyb <ty> <hex>                  plugin->store(LYB format)              -> ok <canon-hex> | err <Kind>
@@ -372,6 +374,26 @@ main(void)
                 vp_begin(id, "ok"); vp_field_hex(canon ? canon : "", canon ? strlen(canon) : 0); vp_end();
                 lydict_remove(ctx, canon);
             }
+            free(s);
+        } else if (!strcmp(op, "validate_n") && r.ntok == 7) {
+            size_t n, cut = strtoul(r.tok[5], NULL, 10); char *s = vp_unhex(r.tok[4], &n), *buf; const char *canon = NULL; LY_ERR rc;
+            if (!s) { vp_reply(id, "err BadHex"); continue; }
+            if (cut > n) cut = n;
+            if (atoi(r.tok[6])) {
+                buf = malloc(cut ? cut : 1);
+                memcpy(buf, s, cut);
+            } else {
+                buf = s;
+            }
+            rc = lyd_value_validate(ctx, t->l, buf, cut, NULL, NULL, &canon);
+            if (rc && rc != LY_EINCOMPLETE) {
+                const struct ly_err_item *e = ly_err_last(ctx);
+                vp_reply(id, "err %s", kind_of_msg(e ? e->msg : NULL));
+            } else {
+                vp_begin(id, "ok"); vp_field_hex(canon ? canon : "", canon ? strlen(canon) : 0); vp_end();
+                lydict_remove(ctx, canon);
+            }
+            if (buf != s) free(buf);
             free(s);
         } else if (!strcmp(op, "cmp") && r.ntok == 6) {
             size_t n1, n2; char *s1 = vp_unhex(r.tok[4], &n1), *s2 = vp_unhex(r.tok[5], &n2);
